@@ -615,6 +615,19 @@ func init() {
 				}
 				units = append(units, Unit{"VerifC16", []string{s, vs[0], "equal", ""}}, Unit{"VerifC16", []string{s, vs[0], "equal", "v"}})
 			}
+			// many operands (the sort switches algorithm above 12 elements): ties must still keep source order
+			for _, n := range []int{5, 12, 13, 14, 20, 33} {
+				var parts []string
+				for k := 0; k < n; k++ {
+					parts = append(parts, fmt.Sprintf("(= i%d 7)", k))
+				}
+				wide := "(and " + strings.Join(parts, " ") + ")"
+				for _, x := range []string{"i0", fmt.Sprintf("i%d", n/2), fmt.Sprintf("i%d", n-1)} {
+					units = append(units, Unit{"VerifC16", []string{wide, x, "equalx", ""}})
+				}
+				units = append(units, Unit{"VerifC16", []string{wide, "i0", "equal", ""}})
+				units = append(units, Unit{"VerifC16", []string{strings.Replace(wide, "(and ", "(or ", 1), "i1", "equalx", "v"}})
+			}
 			for _, s := range append(shapeFamily(1, leavesVarsOnly, false, "B"), extra...) {
 				if !(strings.Contains(s, "and") || strings.Contains(s, "or")) {
 					continue
@@ -628,7 +641,7 @@ func init() {
 		Reach: []string{"pair", "p3", "p4", "p5", "equal-cost-siblings", "special-cost"},
 		Bounds: func(tier string) map[string]interface{} {
 			maxM, _ := shapeTierParams(tier)
-			return map[string]interface{}{"shapes": "all typed shapes with ≤" + itoa(maxM) + " internal nodes containing and/or (all-variable leaves) + 10 wider shapes (≤4 and/or operands)",
+			return map[string]interface{}{"shapes": "all typed shapes with ≤" + itoa(maxM) + " internal nodes containing and/or (all-variable leaves) + 10 wider shapes (≤4 and/or operands) + and/or with 5, 12, 13, 14, 20, 33 tying operands (one name with its own cost)",
 				"costs": "integer-valued symbolic costs in [-10^6,10^6] for up to 3 other names, the `variable`/`operator` defaults present or absent; the raised entry ranges up to 2^40; concrete NaN/±Inf/-0/0.5/±1e300 for P1 only",
 				"sort":  "every comparison outcome of the real sort.stable_func on symbolic costs is a path"}
 		},
@@ -1165,7 +1178,7 @@ func init() {
 				for _, f := range allFlags {
 					units = append(units, Unit{"VerifC20", []string{"0", typ, f}})
 				}
-				l1 := []string{"", "vct"}
+				l1 := []string{"", "t", "vct"}
 				if tier == "thorough" {
 					l1 = allFlags
 				}
